@@ -1,5 +1,6 @@
 import CoupeModel.Model.Rcb
 import CoupeModel.Proofs.Rcb
+import CoupeModel.Proofs.RcbBalance
 
 /-!
 # C03 — Rcb/Rib parts are leaves of a recursive axis-aligned bisection
@@ -154,6 +155,18 @@ theorem rcb_no_out_of_bounds {S : α → Prop} (laws : OrderLawsOn S) (wt : Int 
   · cases h
   · cases h
 
+/-- Termination of the cut search (`par_rcb_split`) in exact integer arithmetic: fuel
+`max − min + 2` is never exhausted, for every tolerance test, weights and items (the
+interval halves until it is at most one unit wide, then the target repeats and the count
+plateau exit – or the all-left exit – fires).  For `f32` the same argument needs "finitely
+many values between `min` and `max`", which is true but not formalised: there the fuel is
+an assumption, see `trusted_base`. -/
+theorem split_terminates_int (wt : Int → Int → Bool) (coord : Nat) (sum : Int)
+    (items : List (Item Int)) (fuel : Nat) (mn mx : Int) (hle : mn ≤ mx)
+    (hf : (mx - mn).toNat + 2 ≤ fuel) :
+    split wt coord sum items fuel 0 mn mx none false ≠ .fuel :=
+  split_terminates_int_aux wt coord sum items fuel 0 mn mx none false hle hf
+
 /-- A length mismatch is reported, nothing else happens. -/
 theorem rcb_len_mismatch (wt : Int → Int → Bool) (cfg : Cfg) (iter : Nat) (pts : List (List α))
     (ws : List Int) (plen : Nat) (blo bhi : List α) (h : ws.length ≠ plen ∨ pts.length ≠ plen) :
@@ -185,3 +198,4 @@ end Coupe.Rcb
 #print axioms Coupe.Rcb.rib_is_bisection
 #print axioms Coupe.Rcb.rcb_no_out_of_bounds
 #print axioms Coupe.Rcb.rcb_len_mismatch
+#print axioms Coupe.Rcb.split_terminates_int
